@@ -399,7 +399,7 @@ func convTypeToTarget(source interface{}, target reflect.Type) (interface{}, err
 			return nil, fmt.Errorf("convTypeToTarget %T not conv to %v", source, target)
 		}
 		return source, nil
-	case reflect.Array, reflect.Slice:
+	case reflect.Slice:
 		return convArrayTypeToTarget(source, target)
 	case reflect.Struct:
 		return convStructToTarget(source, target)
